@@ -352,6 +352,29 @@ def run(ctx):
         wlines.append("ncwrite " + " ".join(common.enc_arr(a) for a in results))
         with Dataset(outp) as ds:
             wmetas.append(([common.vis_arr(numpy.ma.array(numpy.ma.getdata(ds[nm][:]), mask=numpy.ma.getmaskarray(ds[nm][:]))) for nm in names], desc))
+    # a large grid (257 x 300 cells, beyond one compression chunk): two results with different missing cells, written together and read back
+    shape = (257, 300)
+    tpl, outp = os.path.join(tmp, "tpl_big.nc"), os.path.join(tmp, "out_big.nc")
+    make_template(tpl, shape, rng)
+    nprng = numpy.random.RandomState(ctx.seed if hasattr(ctx, "seed") else 0)
+    bigs = [numpy.ma.array(nprng.randint(-1000, 1000, size=shape) / 8.0, mask=nprng.rand(*shape) < 0.1), numpy.ma.array(nprng.randint(-5, 90, size=shape), mask=nprng.rand(*shape) < 0.02)]
+    ctx.case("write-large %r" % (shape,), sample=None)
+    ctx.count("large_grid_cases")
+    try:
+        EEMSWrite("W", []).execute(OutFileName=outp, OutFieldNames=[eems.Producer(a, nm, False) for a, nm in zip(bigs, ["big0", "big1"])], DimensionFileName=tpl, DimensionFieldName="elev")
+        union = numpy.ma.getmaskarray(bigs[0]) | numpy.ma.getmaskarray(bigs[1])
+        with Dataset(outp) as ds:
+            for nm, a in zip(["big0", "big1"], bigs):
+                got = ds[nm][:]
+                if got.shape != shape or not numpy.array_equal(numpy.ma.getmaskarray(got), union) or not numpy.array_equal(numpy.ma.getdata(got)[~union], numpy.ma.getdata(a)[~union]):
+                    ctx.fail("a %d x %d grid written and read back: result %s differs (shape %r, %d cells missing, %d expected)" % (
+                        shape[0], shape[1], nm, got.shape, int(numpy.ma.getmaskarray(got).sum()), int(union.sum())), {"shape": shape})
+                    break
+        back = read_impl(outp, "big0", None, None)
+        if back[0] != "ok" or back[1].shape != shape or not numpy.array_equal(numpy.ma.getmaskarray(back[1]), union):
+            ctx.fail("EEMSRead of a large written grid: %s" % (back[1] if back[0] != "ok" else "shape/mask differ"), {"shape": shape})
+    except Exception as e:
+        ctx.fail("a %d x %d grid cannot be written: %s %s" % (shape[0], shape[1], type(e).__name__, str(e)[:100]), {"shape": shape})
     for (viss, desc), ans in zip(wmetas, model.ask(wlines)):
         parts = ans.split(" ")
         if len(parts) != len(viss):
